@@ -105,6 +105,28 @@ def run(ctx):
             elif p is not None and p.get('kind') == 'ImplicitCastExpr' and p.get('castKind') == 'LValueToRValue' and d.get('mutable') \
                     and not re.search(r'\batomic<', t):
                 okuse = True     # plain mutable member: the read itself is an instance of the rule above
+            elif p is not None and p.get('kind') == 'UnaryOperator' and p.get('opcode') == '&':
+                # its address handed to a file-local helper that only loads from / stores to it
+                q = p.get('_p')
+                while q is not None and q.get('kind') in ('ImplicitCastExpr', 'ParenExpr'):
+                    q = q.get('_p')
+                if q is not None and q.get('kind') == 'CallExpr' and callee(q) and callee(q)[0] == 'fn' and callee(q)[1].get('_qn'):
+                    from ..lock import is_internal
+                    from ..frontend import params_of as _pof
+                    idx = [i_ for i_, a_ in enumerate(call_args(q)) if any(y is x for y in walk(a_))]
+                    for tg in G.resolve_decl(callee(q)[1]):
+                        hu, hf = G.defs[tg]
+                        if is_internal(hf) and idx and idx[0] < len(_pof(hf)):
+                            pid = _pof(hf)[idx[0]]['id']
+                            uses_ = [y for y in walk(hf) if y.get('kind') == 'DeclRefExpr' and (y.get('referencedDecl') or {}).get('id') == pid]
+                            good_ = True
+                            for y in uses_:
+                                pp = y.get('_p')
+                                while pp is not None and pp.get('kind') in ('ImplicitCastExpr', 'ParenExpr'):
+                                    pp = pp.get('_p')
+                                if not (pp is not None and pp.get('kind') == 'MemberExpr' and pp.get('name') in ('load', 'store')):
+                                    good_ = False
+                            okuse = good_ and bool(uses_)
             n_other += 1
             ctx.check(okuse, 'C14-hint', 'mention of %s in %s is a load, a store or an assignment' % (qn(d), fname(k)), x,
                       'the shared hint %s is used here other than through one load bound to a local (an implicit conversion, '
@@ -459,6 +481,11 @@ def _check_hint(ctx, k, u, f, L):
         sink = None
         sink_node = None
         for a in ancestors(use):
+            if a.get('kind') == 'ReturnStmt' and kids(a) and PtrNorm(keys, env).norm(kids(a)[0]) is not None and \
+                    PtrNorm(keys, env).norm(kids(a)[0])[0] == 'ptr':
+                sel_h = PtrNorm(keys, env).norm(kids(a)[0])      # the position itself is handed back to the caller
+                sink = ('return',)
+                break
             if a.get('kind') == 'BinaryOperator' and a.get('opcode') == '=':
                 tgt = (peel(kids(a)[0]).get('referencedDecl') or {}).get('id')
                 sel_h = PtrNorm(keys, env).norm(kids(a)[1])
@@ -478,7 +505,12 @@ def _check_hint(ctx, k, u, f, L):
         sel_f = None
         role_h = _role(sink_node) if sink_node is not None else None
         role_f = None
-        if sink and sink[0] == 'assign':
+        if sink and sink[0] == 'return':
+            for x in walk(f):
+                if x.get('kind') == 'ReturnStmt' and kids(x) and not any(y is use for y in walk(x)) and \
+                        any(y.get('kind') == 'DeclRefExpr' and (y.get('referencedDecl') or {}).get('id') == ubvar for y in walk(x)):
+                    sel_f = flow.norm_at_ast(kids(x)[0])
+        elif sink and sink[0] == 'assign':
             if sink[1] == ubvar:
                 sel_f = ('ptr', base[1], {'U': 1})
         elif sink and sink[0] == 'call':
